@@ -7,6 +7,7 @@ require (
 	github.com/VictoriaMetrics/fastcache v1.5.7
 	github.com/anishathalye/porcupine v1.3.0
 	github.com/golang/protobuf v1.4.2
+	github.com/mattn/go-sqlite3 v1.10.0
 	github.com/syndtr/goleveldb v1.0.0
 	golang.org/x/crypto v0.0.0-20210711020723-a769d52b0f97
 )
